@@ -284,6 +284,13 @@ fn run(ctx: &mut Ctx) {
         stream_stratum(ctx, connective_core(), 5, 5, &mut idx, "asts_connective_core", 0, 0, 99);
         stream_stratum(ctx, binder_core(), 1, 5, &mut idx, "asts_binder_core", 0, 0, 5);
     }
+    for a in enumerate::depth2_family() {
+        idx += 1;
+        if ctx.mine(idx) {
+            check_ast_texts(ctx, &a, idx, false, false, false);
+            ctx.count("asts_depth2_family", 1);
+        }
+    }
     deep_family(ctx);
     wide_family(ctx, TAG);
     for k in 1..=6usize {
